@@ -11,8 +11,23 @@ def held_after_prune(scr, out):
     """direct oracle on the dumps: after a successful refresh, every secret of the user key is a secret of the master
     key's chain for the same right (doc-comment invariant of refresh_coordinate_keys)"""
     hits = []
+    def ids_of(r):
+        b = bytes.fromhex(r[1:]); out = []; v = 0; sh = 0
+        for c in b:
+            v |= (c & 0x7f) << sh; sh += 7
+            if not c & 0x80: out.append(v); v = 0; sh = 0
+        return out
     for ln, (l, o) in enumerate(zip(scr, out)):
         f = l.split(' '); p = o.split('|')
+        # an update that reports success leaves no right of a deleted attribute in the master key: every identifier in a
+        # right name is the identifier of an attribute of the structure (whatever else the update had to do)
+        if f[0] == 'UPD' and p[0] == 'OK' and len(p) >= 2 and ' S=' in p[1] and ' K=' in p[1]:
+            try:
+                sfield = p[1].split(' S=', 1)[1].split(' K=', 1)[0].strip()
+                live = {int(a.split('/')[1]) for d in sfield.split(';') if d.count(':') >= 2 for a in d.split(':', 2)[2].split(',') if a.count('/') >= 3}
+                gone = sorted({r for r in (it.split('=', 1)[0] for it in p[1].split(' K=', 1)[1].split(' ') if '=' in it) if any(i not in live for i in ids_of(r))})
+            except Exception: gone = []
+            if gone: hits.append((ln, f'update succeeded and the master key still holds secrets for right {gone[0]}, which names a deleted attribute')); break
         if f[0] == 'RF' and p[0] == 'OK' and len(p) >= 3:
             msk = dict(it.split('=', 1) for it in p[1].split(' K=', 1)[1].split(' ') if '=' in it) if ' K=' in p[1] else {}
             usk = dict(it.split('=', 1) for it in p[2].split(' K=', 1)[1].split(' ') if '=' in it) if ' K=' in p[2] else {}
